@@ -43,7 +43,7 @@ META = {
 }
 
 IMPORTS = ["Lib.Hex", "Model.ImmStore"]
-SIZES = [0, 1, 2, 3, 5, 8, 10, 16, 33, 50, 64, 100, 199, 200]
+SIZES = [0, 1, 2, 3, 5, 8, 10, 16, 16, 33, 33, 50, 50, 64, 100, 100, 199, 200]
 
 
 def si_bytes(n):
@@ -461,11 +461,23 @@ class Gen(object):
         if not live:
             return None
         (si, sh), w = r.choice(live)
+        mode = r.choice(["fresh", "fresh", "island", "island", "island", "adjacent", "adjacent", "same", "same", "differ", "differ", "past", "full", "rest",
+                         "span-late", "span-late", "span-late", "span-late", "span-early", "span-early", "span-same"])
+
+        def pieces(w):
+            ps = sorted(w["pos"])
+            return 1 + sum(1 for x, y in zip(ps, ps[1:]) if y != x + 1) if ps else 0
+        if mode.startswith("span") and pieces(w) < 2:
+            multi = [(k, x) for k, x in live if pieces(x) >= 2]
+            if multi:
+                (si, sh), w = r.choice(multi)
+        if mode == "island" and w["size"] < 12:
+            big = [(k, x) for k, x in live if x["size"] >= 12]
+            if big:
+                (si, sh), w = r.choice(big)
         size, wid = w["size"], w["wid"]
         want = self.intended_for(si, sh, wid, size)
         written = sorted(w["pos"])
-        mode = r.choice(["fresh", "fresh", "island", "island", "adjacent", "adjacent", "same", "same", "differ", "differ", "past", "full", "rest",
-                         "span-late", "span-late", "span-late", "span-early", "span-early", "span-same"])
         runs = []                                   # maximal runs of written positions
         for q in written:
             if runs and runs[-1][1] == q:
@@ -722,6 +734,8 @@ def run_history(ctx, name, r, nops, ro=False):
         for op in g.readback(h.ref):
             h.do(op)
     h.spans = getattr(g, "spans", 0)
+    if h.spans:
+        ctx.count("histories-with-spanning-conflict-write")
     return h
 
 
